@@ -11,14 +11,14 @@ use std::cmp::Ordering;
 use std::sync::atomic::{AtomicU64, Ordering as AO};
 
 pub fn def() -> CheckDef {
-    CheckDef { id: "C13", run, meta, dbg: false, replay: Some(replay) }
+    CheckDef { id: "C13", run, meta, dbg: true, replay: Some(replay) }
 }
 
 fn meta(ctx: &Ctx) -> Meta {
     Meta {
         level: "exploration",
         rule: format!(
-            "bounded-exhaustive + random: every ordered pair of strings over the 12-symbol alphabet {{0,1,9,a,B,z,.,-,_,~,^,é}} up to length {} is compared through the public Evr ordering (version, release and epoch slots) and judged against a byte-level port of rpm's rpmvercmp(); the full result matrix is checked to be a total preorder (rank-function test: cmp(a,b) must equal the order of the counts of strictly-smaller elements, which is equivalent to reflexive+antisymmetric+transitive); EVR triples and rpm_evr_compare() text forms are judged against (epoch-or-0, version, release) lexicographic order; Eq=>Equal for Evr/Nevra; plus seeded long random pairs biased to shared prefixes, zero runs, separator runs, ~/^ clusters. distinct_nontrivial = distinct strings enumerated + distinct random pairs (first 2M hashed)",
+            "bounded-exhaustive + random: every ordered pair of strings over the 12-symbol alphabet {{0,1,9,a,B,z,.,-,_,~,^,é}} up to length {} is compared through the public Evr ordering (version, release and epoch slots) and judged against a byte-level port of rpm's rpmvercmp(); the full result matrix is checked to be a total preorder (rank-function test: cmp(a,b) must equal the order of the counts of strictly-smaller elements, which is equivalent to reflexive+antisymmetric+transitive); EVR triples and rpm_evr_compare() text forms are judged against (epoch-or-0, version, release) lexicographic order; Eq=>Equal for Evr/Nevra; plus seeded long random pairs biased to shared prefixes, zero runs, separator runs, ~/^ clusters. Runs in release and (with smaller bounds) in the overflow-checking verifdbg profile. distinct_nontrivial = distinct strings enumerated + distinct random pairs (first 2M hashed)",
             ctx.tier.pick(3, 4)
         ),
         assumptions: vec![
@@ -206,7 +206,7 @@ fn run(ctx: &Ctx, rep: &Report) {
         rep.inconclusive(format!("reference model failed its self-test: {e}"));
         return;
     }
-    let maxlen = ctx.tier.pick(3, 4);
+    let maxlen = if ctx.is_dbg() { 3 } else { ctx.tier.pick(3, 4) };
     let strings = enumerate(&ALPHABET, maxlen);
     let n = strings.len();
     rep.count("enumerated_strings", n as u64);
@@ -253,7 +253,7 @@ fn run(ctx: &Ctx, rep: &Report) {
     }
 
     // 1b. thorough: length 5 over an 8-symbol sub-alphabet (37 449 strings, 1.4e9 ordered pairs)
-    if ctx.tier.pick(false, true) {
+    if ctx.tier.pick(false, true) && !ctx.is_dbg() {
         let sub = enumerate(&["0", "1", "a", "B", ".", "~", "^", "-"], 5);
         let m = sub.len();
         rep.count("enumerated_strings_len5_subalphabet", m as u64);
@@ -414,7 +414,7 @@ fn run(ctx: &Ctx, rep: &Report) {
     }
 
     // 5. random long pairs
-    let nrand: u64 = ctx.tier.pick(2_000_000, 600_000_000);
+    let nrand: u64 = ctx.tier.pick(2_000_000, 600_000_000) / if ctx.is_dbg() { 20 } else { 1 };
     let hashed = AtomicU64::new(0);
     let chunk = 10_000u64;
     par_for(ctx.threads, nrand / chunk, 1, |c| {
